@@ -162,7 +162,7 @@ fn values(kind: &str, lit: &str, ignore_header: bool, tier: Tier) -> Vec<Value> 
 }
 
 pub fn run(tier: Tier, report: &mut Report, all_docs: &dyn Fn(&str) -> Vec<Doc>) {
-    let lits: Vec<&str> = tier.pick(vec!["i8", "i32"], subjects::LITS.to_vec());
+    let lits: Vec<&str> = tier.pick(vec!["i8", "i32", "i16", "i64", "isize"], subjects::LITS.to_vec());
     for kind in ["cnf", "wcnf", "gcnf"] {
         for lit in &lits {
             for flag in [false, true] {
